@@ -621,3 +621,8 @@ def vary(run, rng):
         if o['op'] in ('new', 'prof', 'drop'):
             continue
         ops.insert(rng.randint(k + 1, len(ops)), o)
+
+
+def shape(run):
+    return digest([run['swarm']['kind'], run['swarm']['built'], bool(run['faults'].get('flips')),
+                   sorted(set((o['op'], o.get('what', '')) for o in run['ops'])), len(run['ops']) // 5])
